@@ -194,3 +194,58 @@ package dataflow
 //@ func NewBaseRationale
 //@   property C14
 //@   ensures result != nil
+
+// ---------------------------------------------------------------------------
+// C17 / C07: both directions of an edge are recorded.
+
+// addInEdge handles every kind of graph node (no panic) and records the in-edge.
+//@ func addInEdge
+//@   property C17 C07
+//@   requires dest != nil && ref(dest) != 0
+//@   nopanic
+//@   kinds dest world GraphNode
+//@     ensures records: has($x.in, source) && $x.in[source] == path
+//@   modifies map(GraphNode;EdgeInfo)
+
+//@ func updateEdgeInfo
+//@   property C17
+//@   requires sourceNode != nil && ref(sourceNode) != 0 && sourceNode.Out() != nil && dest != nil && ref(dest) != 0
+//@   ensures in_presence: has(dest.In(), sourceNode)
+//@   ensures in_index_is_last: dest.In()[sourceNode].Index == source.Mark.Index.Value
+//@   ensures out_recorded: exists k int :: 0 <= k && k < len(sourceNode.Out()[dest]) && sourceNode.Out()[dest][k].Index == source.Mark.Index.Value
+//@   ensures in_out_same_index: forall k int :: 0 <= k && k < len(sourceNode.Out()[dest]) ==> sourceNode.Out()[dest][k].Index == dest.In()[sourceNode].Index
+//@   loop edgeInfo invariant edgeInfoFound ==> (exists j int :: 0 <= j && j < iter(edgeInfo) && edgeInfos[j].Index == source.Mark.Index.Value)
+
+// ---------------------------------------------------------------------------
+// C09 / C10 / C17: summaries given by position (predefined standard-library
+// summaries and user dataflow contracts) are applied exactly as written.
+
+//@ spec paramOk(g *SummaryGraph, i int) bool = 0 <= i && i < len(g.Parent.Params) && g.Parent.Params[i] != nil && has(g.Params, g.Parent.Params[i])
+
+// addParamEdgeByPos adds the edge src -> dest in BOTH directions exactly when both
+// positions denote parameters of the function; otherwise it reports false.
+//@ func SummaryGraph.addParamEdgeByPos
+//@   property C09 C10 C17
+//@   requires g != nil && g.Parent != nil
+//@   requires forall n ssa.Node :: has(g.Params, n) ==> g.Params[n] != nil && g.Params[n].out != nil
+//@   ensures exact: result <==> old(paramOk(g, src) && paramOk(g, dest))
+//@   ensures out_edge: result ==> has(old(g.Params[g.Parent.Params[src]]).out, old(g.Params[g.Parent.Params[dest]])) && len(old(g.Params[g.Parent.Params[src]]).out[old(g.Params[g.Parent.Params[dest]])]) == old(len(g.Params[g.Parent.Params[src]].out[g.Params[g.Parent.Params[dest]]])) + 1
+//@   ensures in_edge: result ==> old(g.Params[g.Parent.Params[dest]]).in != nil && has(old(g.Params[g.Parent.Params[dest]]).in, old(g.Params[g.Parent.Params[src]]))
+//@   modifies map(GraphNode;[]EdgeInfo), map(GraphNode;EdgeInfo), elems(EdgeInfo), ParamNode.in, map(string;map[string]bool)
+
+//@ func SummaryGraph.addReturnEdgeByPos
+//@   property C09 C10 C17
+//@   requires g != nil && g.Parent != nil
+//@   requires forall n ssa.Node :: has(g.Params, n) ==> g.Params[n] != nil && g.Params[n].out != nil
+//@   ensures bad_position: !old(paramOk(g, src)) || pos < 0 ==> !result
+//@   ensures no_such_result: (forall r ssa.Instruction :: has(g.Returns, r) ==> pos >= len(g.Returns[r]) || g.Returns[r][pos] == nil) ==> !result
+//@   modifies map(GraphNode;[]EdgeInfo), map(GraphNode;EdgeInfo), elems(EdgeInfo), ReturnValNode.in, map(string;map[string]bool)
+
+// PopulateGraphFromSummary applies every listed position pair, and nothing else decides the edges.
+//@ func SummaryGraph.PopulateGraphFromSummary
+//@   property C09 C10
+//@   requires g != nil ==> g.Parent != nil
+//@   requires g != nil ==> (forall n ssa.Node :: has(g.Params, n) ==> g.Params[n] != nil && g.Params[n].out != nil)
+//@   ensures args: forall i int, k int :: g != nil && 0 <= i && i < len(summary.Args) && 0 <= k && k < len(summary.Args[i]) ==> called(SummaryGraph.addParamEdgeByPos, g, i, summary.Args[i][k])
+//@   ensures rets: forall i int, k int :: g != nil && 0 <= i && i < len(summary.Rets) && 0 <= k && k < len(summary.Rets[i]) ==> called(SummaryGraph.addReturnEdgeByPos, g, i, summary.Rets[i][k])
+//@   ensures marked: g != nil ==> g.Constructed && g.IsPreSummarized && g.IsInterfaceContract == isInterface && len(g.Callees) == 0
